@@ -122,6 +122,7 @@ class LoopCtx:
     covering: bool
     breaks: list = field(default_factory=list)
     continues: list = field(default_factory=list)
+    seq: Any = None
 
 
 class State:
